@@ -8,6 +8,7 @@ CONSTANTS
   UseSnap = FALSE
   UseDup = FALSE
   DumpReset = FALSE
+  ScriptName = "none"
   Reps <- MCReps
   Actors <- MCActors
   Vals <- MCVals
